@@ -32,12 +32,52 @@ type Ledger struct {
 	order    []channel.ID
 	Calls    []LedgerCall
 	SubLog   []SubRec
+	Deliv    []DelivRec
 	nsub     int
 
 	MinLat, MaxLat   time.Duration // latency of calls
 	EvMin, EvMax     time.Duration // latency of event delivery
 	FailP            float64       // probability that a Register/Withdraw call fails outright (relaxed configurations)
 	ExtendOnRefute   bool          // false: a refutation does not extend the challenge period
+}
+
+// DelivRec records the delivery of an event to a subscription.
+type DelivRec struct {
+	At         time.Duration
+	Who        string
+	SubName    string
+	Ch         channel.ID
+	Version    uint64
+	Registered bool
+}
+
+// FirstSubName returns the name of the first subscription who created for id
+// (the watcher's: Channel.Watch starts right after the channel exists, the
+// client's own subscriptions only during Settle).
+func (l *Ledger) FirstSubName(who string, id channel.ID) string {
+	l.mu.Lock()
+	defer l.mu.Unlock()
+	if c := l.chans[id]; c != nil {
+		for _, s := range c.subs {
+			if s.owner == who {
+				return s.name
+			}
+		}
+	}
+	return ""
+}
+
+// Deliveries returns the recorded event deliveries to one subscription.
+func (l *Ledger) Deliveries(subName string) []DelivRec {
+	l.mu.Lock()
+	defer l.mu.Unlock()
+	var out []DelivRec
+	for _, d := range l.Deliv {
+		if d.SubName == subName {
+			out = append(out, d)
+		}
+	}
+	return out
 }
 
 // SubRec records the creation of an event subscription.
@@ -821,6 +861,10 @@ func (l *Ledger) schedule(sub *Subscription, e channel.AdjudicatorEvent) {
 			return
 		}
 		l.S.Event(sub.name, "ledger:event", fmt.Sprintf("%s %s v%d", l.S.ChanName(sub.id), typ, e.Version()))
+		_, isReg := e.(*channel.RegisteredEvent)
+		l.mu.Lock()
+		l.Deliv = append(l.Deliv, DelivRec{At: l.S.Now(), Who: sub.owner, SubName: sub.name, Ch: sub.id, Version: e.Version(), Registered: isReg})
+		l.mu.Unlock()
 		select {
 		case sub.events <- e:
 		case <-sub.closed:
